@@ -77,6 +77,15 @@ func jobsFor(id, tier string) []*Job {
 	}
 	_ = wmk
 	switch id {
+	case "C09":
+		op := [][]int{{1, 0}, {2, 0}, {3, 0}, {2, 2}, {1, 2}}
+		mp := [][]int{{1, 0}, {2, 0}, {1, 1}}
+		if thorough {
+			op = append(op, []int{3, 2}, []int{4, 0})
+			mp = append(mp, []int{3, 0}, []int{2, 1}, []int{2, 2})
+		}
+		add(split(wmk("obj", "zzverifw.H_C09_obj", op))...)
+		add(split(wmk("map", "zzverifw.H_C09_map", mp))...)
 	case "C05":
 		var ps [][]int
 		for c := 0; c < 32; c++ { // 2 objects, names x and y, all 4 property kinds, first object sharded
@@ -199,6 +208,8 @@ func assumptionsFor(id string) []string {
 		"harness oracles written from the property statement and docs (DESIGN.md Appendix B)",
 	}
 	switch id {
+	case "C09":
+		return append(common, "reference = ordered dictionary in the harness (first occurrence wins; scalar keys distinct by type + value, array keys by ==; scalar keys iterate first in insertion order)", "float keys exclude NaN and -0.0 (%{0.0: 1, -0.0: 2} keeps both keys while 0.0 == -0.0; the statement does not settle that case, so it is outside the domain rather than a finding)")
 	case "C05":
 		return append(common, "every object carries a unique id property, so structural == (used by ancestors/kindOf?) coincides with identity", "forest model (parent, defined kinds, _missing) kept by the harness; expected raw property values are read from the definer's own Pairs map")
 	case "C14":
@@ -230,6 +241,16 @@ func assumptionsFor(id string) []string {
 func boundsFor(id, tier string, jobs []*Job) map[string]interface{} {
 	b := map[string]interface{}{"tier": tier}
 	switch id {
+	case "C09":
+		if tier == "thorough" {
+			b["object_literals"] = "1..4 pairs, or 1..3 pairs + a ** of 2 pairs; every name a solver choice from {a, b, _p}"
+			b["map_literals"] = "1..3 pairs, or 1..2 pairs + a ** of 1..2 pairs"
+		} else {
+			b["object_literals"] = "1..3 pairs, or 1..2 pairs + a ** of 2 pairs; every name a solver choice from {a, b, _p}"
+			b["map_literals"] = "1..2 pairs, or 1 pair + a ** of 1 pair"
+		}
+		b["map_keys"] = "kind per key a solver choice of int (any int64), float (any non-NaN, non -0.0 pattern), str (pool of 2), nil, bool, one-element array of any int64 — whether two keys collide is decided by the solver"
+		b["accessors"] = "keys / values / items (with and without private?: true), iteration, len, o['name], o.name, m[k] for every written key and for a fresh symbolic int key"
 	case "C05":
 		if tier == "thorough" {
 			b["forest"] = "2 and 3 objects; each later object is a bear child or a bro sibling of a solver-chosen earlier object"
@@ -308,6 +329,8 @@ func boundsFor(id, tier string, jobs []*Job) map[string]interface{} {
 
 func outsideFor(id string) []string {
 	switch id {
+	case "C09":
+		return []string{"literals larger than the bound", "object keys / nested maps as map keys", "NaN and -0.0 float keys", "printing (covered for fixed programs by C08)", "m[k] for an absent key that names one of the map's own properties"}
 	case "C05":
 		return []string{"forests deeper or wider than the bound", "receivers that are not objects (ints, strs ... resolve through their built-in prototypes; covered indirectly by other checks)", "private (underscore) property names other than _missing", "properties defined on the built-in ancestors Obj/BaseObj shadowing user names", "Obj.new copies"}
 	case "C14":
